@@ -743,6 +743,8 @@ class Exec:
                 cmpop, hi = flip[c[1]], lin[1]
             if cmpop == "!=":
                 cmpop = "<"
+        if cmpop == "<":
+            hi = self._clamp(hi)
         if cmpop not in ("<", "<=") or sym.contains(hi, k):
             for i, e0 in entry.items():
                 self.env[i] = e0
@@ -887,13 +889,8 @@ class Exec:
                     # behaviour for pointers and signed counters, and is not considered)
                     cs = sym.const_value(eff_step)
                     cmpop = "<" if cs == 1 else ">" if cs == -1 else None
-            if cmpop == "<" and hi is not None and hi[0] == "cond" and hi[1][0] == "op":
-                # i < max(X, lo), written  X > lo ? X : lo  : the loop is empty whenever X <= lo, so the bound is X
-                cc, ca, cb = hi[1], hi[2], hi[3]
-                if cc[1] in (">", ">=") and ca == cc[2] and cb == cc[3] and cb == eff_lo:
-                    hi = ca
-                elif cc[1] in ("<", "<=") and cb == cc[2] and ca == cc[3] and ca == eff_lo:
-                    hi = cb
+            if cmpop == "<" and hi is not None:
+                hi = self._clamp(hi, eff_lo)       # i < max(X, lo): the loop is empty whenever X <= lo, so the bound is X
             if cmpop is not None and not sym.contains(hi, lv):
                 b = []
                 st = self.block(body, b)
